@@ -175,11 +175,11 @@ def gen_struct(outdir):
             ind = l[:len(l) - len(l.lstrip())]
             is_call = bool(re.match(r"^[a-z_][A-Za-z0-9_\.\[\]\(\)&\*:<>,' ]*\((.*)\);$", st)) and not st.startswith("let ") and not st.startswith("return")
             if is_call:
-                nl = list(lines); nl[i] = l + "\n" + l
+                nl = lines[:i + 1] + [l] + lines[i + 1:]
                 emit(rel, lines, nl, i, st, st + " " + st)
-                nl = list(lines); nl[i] = l + "\n" + ind + "return;"
+                nl = lines[:i + 1] + [ind + "return;"] + lines[i + 1:]
                 emit(rel, lines, nl, i, st, st + " return;")
-                nl = list(lines); nl[i] = ind + "return;\n" + l
+                nl = lines[:i] + [ind + "return;"] + lines[i:]
                 emit(rel, lines, nl, i, st, "return; " + st)
             # swap with the next statement of the same block
             if i + 1 in ok and stmt.match(st) and not st.startswith("return"):
@@ -194,7 +194,7 @@ def gen_struct(outdir):
                 for j in range(i, len(lines)):
                     depth += lines[j].count("{") - lines[j].count("}")
                     if depth == 0 and j > i:
-                        nl = list(lines); nl[j] = ind + "    break;\n" + lines[j]
+                        nl = lines[:j] + [ind + "    break;"] + lines[j:]
                         emit(rel, lines, nl, i, st, st + " .. break; }")
                         break
             # compound conditions
